@@ -486,6 +486,16 @@ def mon_stop(run):
     if should is not None and (stop_step is None or stop_step > should) and run.result is not None \
             and run.result[0] != "error":
         out.append((sig(run, kind="maxfail-reached-without-stop"), {"at": should, "stop_step": stop_step}))
+    # ... and only by them: every failure counts ONCE (a collection error that every worker hits is one failure)
+    if stop_step is not None:
+        nfailed = sum(1 for k, o in run.outs if k <= stop_step and ((o[0] == "h_report" and o[4] == 1) or (o[0] == "h_collectreport" and o[2] == 1)
+                                                                    or o[0] == "h_crashreport" or o[0] == "colldiff"))
+        by_maxfail = bool(maxfail) and nfailed >= maxfail
+        by_worker = any(k <= stop_step and ev and ev[0] == "workerfinished" and ev[1] in stoppers for k, ev in run.ctl_events.items())
+        by_budget = any(k <= stop_step and o[0] == "summary" for k, o in run.outs)
+        if not (by_maxfail or by_worker or by_budget):
+            out.append((sig(run, kind="stopped-without-a-stop-condition"),
+                        {"stop_step": stop_step, "failures_forwarded": nfailed, "maxfail": maxfail}))
     return out
 
 
